@@ -860,6 +860,12 @@ getfn (int writeflg)
   file2 = check_valid_path (file, current_editor, "ed_start", writeflg);
   if (!file2)
     return (NULL);
+  if (strlen (file2) >= MAXFNAME)
+    {
+      /* never open a cut-off version of the name the master has approved */
+      ED_OUTPUT (ED_DEST, "File name too long.\n");
+      return (NULL);
+    }
   strncpy (file, file2, MAXFNAME - 1);
   file[MAXFNAME - 1] = 0;
 
